@@ -183,6 +183,10 @@ def _(rng):
             assert close(mat(M.tensordot(a, b, axes=axes)), np.tensordot(a, b, axes=axes), 1e-8), f"tensordot {axes}"
         n += 1
     assert close(mat(M.matmul(a[0], b[:, :, 0])), a[0] @ b[:, :, 0], 1e-8)
+    t = rng.normal(size=(2, 3, 2, 3, 2))
+    for (a1, a2) in [(0, 2), (2, 0), (1, 3), (-1, 0), (2, 4)]:
+        assert close(mat(M.trace(arr.lift(t), axis1=a1, axis2=a2)), np.trace(t, axis1=a1, axis2=a2), 1e-8), f"trace {a1},{a2}"
+        n += 1
     return n + 1
 
 
